@@ -702,6 +702,41 @@ func c18Adapters(c *Check, P string) {
 		if !c.Use(P+".O2", inner, name+" handler closure") {
 			continue
 		}
+		// delegation: NewCommandHandler = NewCommandHandlerWithResult with an adapter that adds an empty result
+		if name == "NewCommandHandler" {
+			if other := c.P.Func(rrRel, "NewCommandHandlerWithResult"); other != nil {
+				var deleg ssa.CallInstruction
+				for _, cl := range CallsIn(fn) {
+					if CalleeFn(cl.Common()) == other {
+						deleg = cl
+					}
+				}
+				if deleg != nil {
+					okRet := true
+					for _, r := range Returns(fn) {
+						if !AllOrigins(r.Results[0], func(v ssa.Value) bool { return IsResultOf(v, deleg, 0) }) {
+							okRet = false
+						}
+					}
+					okArgs := len(deleg.Common().Args) == 3 && len(fn.Params) == 3 && FromParam(fn.Params[0])(Arg(deleg, 0)) && FromParam(fn.Params[1])(unwrapIface(Arg(deleg, 1))) && FuncOfValue(firstOrigin(Arg(deleg, 2))) == inner
+					// the adapter calls the user's handler once and returns its error unchanged
+					var ucalls []ssa.CallInstruction
+					for _, cl := range CallsIn(inner) {
+						if !cl.Common().IsInvoke() && CalleeFn(cl.Common()) == nil && AllOrigins(cl.Common().Value, func(o ssa.Value) bool { p, ok := o.(*ssa.Parameter); return ok && p.Parent() == fn }) {
+							ucalls = append(ucalls, cl)
+						}
+					}
+					okAd := len(ucalls) == 1 && !InLoop(ucalls[0])
+					for _, r := range Returns(inner) {
+						if !okAd || len(r.Results) != 2 || !AllOrigins(r.Results[1], func(v ssa.Value) bool { return IsResultOf(v, ucalls[0], 0) }) {
+							okAd = false
+						}
+					}
+					c.Report(okRet && okArgs && okAd, P+".O2", "HANDLER-DELEGATES", fn, deleg.Pos(), name, "NewCommandHandler is NewCommandHandlerWithResult with the same name and backend and an adapter that runs the user's handler once and passes its error on (the obligations are decided on NewCommandHandlerWithResult)")
+					continue
+				}
+			}
+		}
 		var user, proc []ssa.CallInstruction
 		for _, cl := range CallsIn(inner) {
 			if cl.Common().IsInvoke() && cl.Common().Method.Name() == "OnCommandProcessed" {
